@@ -136,6 +136,19 @@ Theorem C07_attribute_response_every_outcome :
 Proof. exact attribute_response_every_outcome. Qed.
 Print Assumptions C07_attribute_response_every_outcome.
 
+(* the PROPOSED repair of setup_assertion (Proofs: setup_assertion_fixed — on the swallowed MissingValue
+   re-run Policy.filter with the requirements treated as wishes) satisfies the FULL every-outcome statement *)
+Theorem C07_suggested_fix_every_outcome :
+  forall matches lname p identity sp md best_effort,
+    outcome_ok matches lname p sp md identity (setup_assertion_fixed matches lname p identity sp md best_effort).
+Proof. exact setup_assertion_fixed_every_outcome. Qed.
+Print Assumptions C07_suggested_fix_every_outcome.
+
+Example C07_suggested_fix_on_witness :
+  setup_assertion_fixed no_rx no_ln w_pol w_ident w_sp w_md true = Asserted [(s2l "givenName", [s2l "Anna"])].
+Proof. vm_compute. reflexivity. Qed.
+Print Assumptions C07_suggested_fix_on_witness.
+
 (* observation (not alarmed on): with NO aa policy configured create_attribute_response applies
    no policy object at all, not even the SP's declarations *)
 Theorem C07_attribute_response_no_policy :
